@@ -73,7 +73,9 @@ func (f *Maplist) Call(s *slip.Scope, args slip.List, depth int) (result slip.Ob
 			l2 := args[i].(slip.List)
 			ca[i-1] = l2[n:]
 		}
-		rlist[n] = slip.PrimaryValue(caller.Call(s, ca, d2))
+		if rlist[n] = slip.PrimaryValue(caller.Call(s, ca, d2)); slip.IsExit(rlist[n]) {
+			return rlist[n]
+		}
 	}
 	return rlist
 }
